@@ -128,6 +128,7 @@ func FPConst(f float64, w int) *Term {
 type TB struct {
 	defs    func(name string, s Sort, body string) // emit definition
 	ndef    int
+	names   map[string]string
 	MaxLen  int
 	Created int
 }
@@ -144,17 +145,47 @@ func (tb *TB) mk(s Sort, op string, args ...*Term) *Term {
 	return tb.wrap(s, sb.String())
 }
 
+// wrapForce names a term regardless of its length.
+func (tb *TB) wrapForce(a *Term) *Term {
+	if tb.names == nil {
+		tb.names = map[string]string{}
+	}
+	if name, ok := tb.names[a.s]; ok {
+		c := *a
+		c.s = name
+		return &c
+	}
+	tb.ndef++
+	name := fmt.Sprintf("d_%d", tb.ndef)
+	tb.defs(name, a.S, a.s)
+	tb.names[a.s] = name
+	c := *a
+	c.s = name
+	return &c
+}
+
 func (tb *TB) wrap(s Sort, str string) *Term {
 	tb.Created++
 	ml := tb.MaxLen
 	if ml == 0 {
 		ml = 160
 	}
-	if len(str) > ml && tb.defs != nil {
-		tb.ndef++
-		name := fmt.Sprintf("d_%d", tb.ndef)
-		tb.defs(name, s, str)
-		str = name
+	if len(str) > ml && tb.defs != nil && !strings.HasPrefix(str, "(not ") {
+		// (negations are never named, so that Not(Not(x)) == x does not depend on term length)
+		// hash-consed: structurally equal terms get the same name, so that string equality of terms
+		// does not depend on naming counters
+		if tb.names == nil {
+			tb.names = map[string]string{}
+		}
+		if name, ok := tb.names[str]; ok {
+			str = name
+		} else {
+			tb.ndef++
+			name := fmt.Sprintf("d_%d", tb.ndef)
+			tb.defs(name, s, str)
+			tb.names[str] = name
+			str = name
+		}
 	}
 	return &Term{S: s, s: str}
 }
@@ -164,6 +195,10 @@ func (tb *TB) wrap(s Sort, str string) *Term {
 func (tb *TB) Not(a *Term) *Term {
 	if a.c {
 		return BoolT(a.u == 0)
+	}
+	if !strings.HasPrefix(a.s, "(not ") && len(a.s) > 40 && tb.defs != nil && a.s[0] == '(' {
+		// name the operand first: the negation then stays a short "(not d_k)"
+		a = tb.wrapForce(a)
 	}
 	if strings.HasPrefix(a.s, "(not ") {
 		// (not (not x)) = x  -- only when a was built by Not without wrapping
